@@ -141,6 +141,10 @@ def Op.ok : Op → Prop
   | .new _ name _ => (quote name).contains dot = false ∧ nameEsc (quote name) = true
   | _ => True
 
+/-- `Op.ok` is the executable `Op.scope` the correspondence run evaluates on every generated history -/
+theorem Op.ok_iff_scope (op : Op) : op.ok ↔ op.scope = true := by
+  cases op <;> simp [Op.ok, Op.scope]
+
 theorem get_invE (s : State) (h : Nat) (o : Obj) (hs : Good s) (hg : s.get h = .ok o) : invE o :=
   hs.1 o (List.mem_of_getElem? (get_some s h o hg))
 
